@@ -472,5 +472,6 @@ func c19(p *model.Prog, r *report.Result) {
 	c19r10(p, r)
 	w5AscCopy(p, r, "C19.R11")
 	w7AscHexLength(p, r, "C19.R13")
+	w8ClearAllSets(p, r, "C19.R14")
 	w6CtxDefUse(p, r, "C19.R12", 1, p.Func("pkg/hevc", "ParseSps"), p.Func("pkg/hevc", "ParseVps"), p.TryFunc("pkg/hevc", "ParsePps"), p.TryFunc("pkg/avc", "ParseSps"))
 }
